@@ -19,6 +19,8 @@ import (
 	"errors"
 	"runtime"
 	"sync"
+
+	"github.com/bufbuild/buf/private/pkg/verifhook"
 )
 
 var (
@@ -89,6 +91,7 @@ func Parallelize(ctx context.Context, jobs []func(context.Context) error, option
 		// enforce precedence, use a similar pattern to the check-lock-check
 		// pattern common with sync.RWMutex: check the context twice, and only do
 		// the semaphore-protected work in the innermost default case.
+		verifhook.Acquire(cap(semaphoreC))
 		select {
 		case <-ctx.Done():
 			stop = true
@@ -101,13 +104,16 @@ func Parallelize(ctx context.Context, jobs []func(context.Context) error, option
 			default:
 				job := job
 				wg.Add(1)
+				token := verifhook.Spawn()
 				go func() {
+					verifhook.Begin(token)
 					if err := job(ctx); err != nil {
 						addError(err)
 						if cancel != nil {
 							cancel()
 						}
 					}
+					verifhook.End(token)
 					// This will never block.
 					<-semaphoreC
 					wg.Done()
@@ -115,6 +121,7 @@ func Parallelize(ctx context.Context, jobs []func(context.Context) error, option
 			}
 		}
 	}
+	verifhook.Wait()
 	wg.Wait()
 	switch len(errs) {
 	case 0:
